@@ -23,6 +23,17 @@ def fairness_problems(run):
     for ev in run["log"]:
         if ev[0] == "put" and ev[7]:
             excl[ev[2]] = ev[3]
+        elif ev[0] == "getend" and ev[2] is None:
+            # a scan of the queue that hands out nothing: no FIFO may have been eligible (the consumer holds the queue's lock
+            # from the scan to this dump, so the dump is what the scan saw)
+            m = re.search(r"fifos=(.*?); keysBy", ev[3])
+            for tok in m.group(1).split():
+                k, ids, inp, locked = tok.split(":")
+                ids = ids.strip("[]")
+                ids = [int(x) for x in ids.split(",")] if ids != "-" else []
+                if ids and locked != "1" and not (int(inp) > 0 and excl.get(ids[0], False)):
+                    probs.append(f"fair: a consumer's scan of the queue handed out nothing although FIFO {k} (running {inp}, not locked) "
+                                 f"has the startable task {ids[0]} at its head")
         elif ev[0] == "getend" and ev[2] is not None:
             item, key = ev[2]
             dump = ev[3]
